@@ -1,10 +1,11 @@
 //@@ include prelude/head.rs
 use std::time::{Duration, Instant};
 use std::sync::Arc;
-use std::collections::{VecDeque, HashMap};
+use std::collections::{VecDeque, HashMap, HashSet};
 use std::alloc::Allocator;
 //@@ include prelude/time.rs
 //@@ include prelude/deque_iter.rs
+//@@ include prelude/hash_iter.rs
 //@@ include prelude/strnum.rs
 //@@ include prelude/cmp.rs
 //@@ include prelude/hash_keys.rs
@@ -17,7 +18,7 @@ broadcast use {group_time, group_byte_keys, vstd::std_specs::hash::group_hash_ax
 pub struct FerrousError { pub g: Ghost<int> }
 pub type Result<T> = std::result::Result<T, FerrousError>;
 pub enum Item { Str(Seq<u8>), Len(int) }
-pub enum Eff { RPush(int, Seq<u8>, Seq<Seq<u8>>), Expire(int, Seq<u8>, int), XAdd(int, Seq<u8>, StreamId) }
+pub enum Eff { RPush(int, Seq<u8>, Seq<Seq<u8>>), Expire(int, Seq<u8>, int), XAdd(int, Seq<u8>, StreamId), SAdd(int, Seq<u8>, Seq<Seq<u8>>), HSet(int, Seq<u8>, Seq<(Seq<u8>, Seq<u8>)>) }
 pub struct RdbReader { pub reads: Ghost<Seq<Item>> }
 pub struct StoreLog { pub effs: Ghost<Seq<Eff>> }
 impl StoreLog {
@@ -30,9 +31,13 @@ impl StoreLog {
     #[verifier::external_body]
     pub fn set_string_ex(&mut self, db: usize, key: Vec<u8>, value: Vec<u8>, ttl: Duration) -> (r: Result<()>) { unimplemented!() }
     #[verifier::external_body]
-    pub fn sadd(&mut self, db: usize, key: Vec<u8>, members: Vec<Vec<u8>>) -> (r: Result<usize>) { unimplemented!() }
+    pub fn sadd(&mut self, db: usize, key: Vec<u8>, members: Vec<Vec<u8>>) -> (r: Result<usize>)
+        ensures final(self).effs@ == old(self).effs@.push(Eff::SAdd(db as int, key@, members@.map_values(|e: Vec<u8>| e@))),
+    { unimplemented!() }
     #[verifier::external_body]
-    pub fn hset(&mut self, db: usize, key: Vec<u8>, field_values: Vec<(Vec<u8>, Vec<u8>)>) -> (r: Result<usize>) { unimplemented!() }
+    pub fn hset(&mut self, db: usize, key: Vec<u8>, field_values: Vec<(Vec<u8>, Vec<u8>)>) -> (r: Result<usize>)
+        ensures final(self).effs@ == old(self).effs@.push(Eff::HSet(db as int, key@, field_values@.map_values(|p: (Vec<u8>, Vec<u8>)| (p.0@, p.1@)))),
+    { unimplemented!() }
     #[verifier::external_body]
     pub fn zadd(&mut self, db: usize, key: Vec<u8>, member: Vec<u8>, score: f64) -> (r: Result<bool>) { unimplemented!() }
     #[verifier::external_body]
@@ -63,13 +68,25 @@ pub open spec fn list_items(key: Seq<u8>, elems: Seq<Seq<u8>>) -> Seq<Item> {
 /// loading them: one RPUSH per element, in file order
 pub open spec fn list_effs(db: int, key: Seq<u8>, elems: Seq<Seq<u8>>) -> Seq<Eff> { elems.map_values(|e: Seq<u8>| Eff::RPush(db, key, seq![e])) }
 
+/// the items of the pairs of a HASH record: field, value, field, value, ...
+pub open spec fn hash_items(fv: Seq<(Seq<u8>, Seq<u8>)>) -> Seq<Item>
+    decreases fv.len()
+{
+    if fv.len() == 0 { Seq::empty() } else { hash_items(fv.drop_last()).push(Item::Str(fv.last().0)).push(Item::Str(fv.last().1)) }
+}
+pub open spec fn hash_record(key: Seq<u8>, fv: Seq<(Seq<u8>, Seq<u8>)>) -> Seq<Item> { seq![Item::Str(key), Item::Len(fv.len() as int)] + hash_items(fv) }
+pub proof fn lemma_hash_items_push(fv: Seq<(Seq<u8>, Seq<u8>)>, p: (Seq<u8>, Seq<u8>))
+    ensures hash_items(fv.push(p)) == hash_items(fv).push(Item::Str(p.0)).push(Item::Str(p.1)),
+{
+    assert(fv.push(p).drop_last() =~= fv);
+}
 impl RdbReader {
 //@@ unit load_list_arm arm src/storage/rdb.rs RdbReader::read_key_value_with_type "op if op == RdbOpcode::List as u8"
 //@@   opt same-return-type
 //@@   tail Ok(())
 //@@   params drop "storage: &Arc<StorageEngine>" add "storage: &mut StoreLog"
 //@@   rewrite RFORC 0
-//@@   at "for _ in 0..count"
+//@@   after "let count = self.read_length()?;"
 //@@|     let ghost mut elems: Seq<Seq<u8>> = Seq::empty(); let ghost r0 = old(self).reads@; let ghost e0 = old(storage).effs@;
 //@@   loop 0
 //@@|     invariant
@@ -111,7 +128,7 @@ impl RdbReader {
 pub fn verif_sid_from_str(s: &str) -> Option<StreamId> { unimplemented!() }
 /// every effect from position `from` on concerns this key of this database
 pub open spec fn only_key(effs: Seq<Eff>, from: int, db: int, key: Seq<u8>) -> bool {
-    forall|i: int| from <= i < effs.len() ==> (match #[trigger] effs[i] { Eff::XAdd(d, k, _) => d == db && k == key, Eff::Expire(d, k, _) => d == db && k == key, Eff::RPush(d, k, _) => d == db && k == key })
+    forall|i: int| from <= i < effs.len() ==> (match #[trigger] effs[i] { Eff::XAdd(d, k, _) => d == db && k == key, Eff::Expire(d, k, _) => d == db && k == key, Eff::RPush(d, k, _) => d == db && k == key, Eff::SAdd(d, k, _) => d == db && k == key, Eff::HSet(d, k, _) => d == db && k == key })
 }
 impl RdbReader {
 //@@ unit load_stream_arm arm src/storage/rdb.rs RdbReader::read_key_value_with_type "op if op == RdbOpcode::Stream as u8"
@@ -167,12 +184,29 @@ impl RdbReader {
 //@@   params drop "storage: &Arc<StorageEngine>" add "storage: &mut StoreLog"
 //@@   rewrite RT "let mut members = Vec::new();" "let mut members: Vec<Vec<u8>> = Vec::new();"
 //@@   rewrite RFORC 0
+//@@   after "let count = self.read_length()?;"
+//@@|     let ghost r0 = old(self).reads@;
 //@@   loop 0
-//@@|     invariant 0 <= ___n <= ___end, ___end == count,
+//@@|     invariant 0 <= ___n <= ___end, ___end == count, members@.len() == ___n, storage.effs@ == old(storage).effs@,
+//@@|         self.reads@ =~= r0 + seq![Item::Str(key@), Item::Len(count as int)] + members@.map_values(|e: Vec<u8>| Item::Str(e@)),
 //@@|     decreases ___end - ___n,
-    // C10: safety and termination only (see load_stream_arm): whatever count the file names, the arm neither overflows, nor allocates by that
-    // count (elements are pushed one by one as they are read), nor loops for ever
+//@@   at "storage.sadd(db, key.clone(), members)?;"
+//@@|     let ghost ms = members@.map_values(|e: Vec<u8>| e@);
+//@@|     proof { assert(members@.map_values(|e: Vec<u8>| Item::Str(e@)) =~= ms.map_values(|e: Seq<u8>| Item::Str(e))); }
+//@@   after "if let Some(ttl) = ttl"
+//@@|     proof {
+//@@|         assert(self.reads@.subrange(r0.len() as int, self.reads@.len() as int) =~= list_items(key@, ms));
+//@@|         assert(self.reads@.take(r0.len() as int) =~= r0);
+//@@|         assert(storage.effs@ =~= old(storage).effs@ + seq![Eff::SAdd(db as int, key@, ms)] + (match ttl { Some(t) => seq![Eff::Expire(db as int, key@, dur_nanos(t))], None => Seq::<Eff>::empty() }));
+//@@|     }
     fn load_set_arm(&mut self, storage: &mut StoreLog, db: usize, ttl: Option<Duration>) -> (r: Result<()>)
+        ensures
+            // C09: a SET record (key, count, members — the same item layout as a LIST body) is loaded with ONE SADD of exactly the members that follow
+            // the count, then the record's TTL
+            r is Ok ==> exists|key: Seq<u8>, ms: Seq<Seq<u8>>| #[trigger] list_items(key, ms) == final(self).reads@.subrange(old(self).reads@.len() as int, final(self).reads@.len() as int)
+                && final(self).reads@.take(old(self).reads@.len() as int) == old(self).reads@
+                && final(storage).effs@ == old(storage).effs@ + seq![Eff::SAdd(db as int, key, ms)]
+                    + (match ttl { Some(t) => seq![Eff::Expire(db as int, key, dur_nanos(t))], None => Seq::<Eff>::empty() }),
 //@@ body
 //@@ end
 
@@ -182,12 +216,35 @@ impl RdbReader {
 //@@   params drop "storage: &Arc<StorageEngine>" add "storage: &mut StoreLog"
 //@@   rewrite RT "let mut field_values = Vec::new();" "let mut field_values: Vec<(Vec<u8>, Vec<u8>)> = Vec::new();"
 //@@   rewrite RFORC 0
+//@@   after "let count = self.read_length()?;"
+//@@|     let ghost r0 = old(self).reads@;
 //@@   loop 0
-//@@|     invariant 0 <= ___n <= ___end, ___end == count,
+//@@|     invariant 0 <= ___n <= ___end, ___end == count, field_values@.len() == ___n, storage.effs@ == old(storage).effs@,
+//@@|         self.reads@ =~= r0 + seq![Item::Str(key@), Item::Len(count as int)] + hash_items(field_values@.map_values(|p: (Vec<u8>, Vec<u8>)| (p.0@, p.1@))),
 //@@|     decreases ___end - ___n,
-    // C10: safety and termination only (see load_stream_arm): whatever count the file names, the arm neither overflows, nor allocates by that
-    // count (elements are pushed one by one as they are read), nor loops for ever
+//@@   at "field_values.push((field, value));"
+//@@|     let ghost fv_b = field_values@.map_values(|p: (Vec<u8>, Vec<u8>)| (p.0@, p.1@)); let ghost f = field@; let ghost v = value@;
+//@@   after "field_values.push((field, value));"
+//@@|     proof {
+//@@|         assert(field_values@.map_values(|p: (Vec<u8>, Vec<u8>)| (p.0@, p.1@)) =~= fv_b.push((f, v)));
+//@@|         lemma_hash_items_push(fv_b, (f, v));
+//@@|     }
+//@@   at "storage.hset(db, key.clone(), field_values)?;"
+//@@|     let ghost fv = field_values@.map_values(|p: (Vec<u8>, Vec<u8>)| (p.0@, p.1@));
+//@@   after "if let Some(ttl) = ttl"
+//@@|     proof {
+//@@|         assert(self.reads@.subrange(r0.len() as int, self.reads@.len() as int) =~= hash_record(key@, fv));
+//@@|         assert(self.reads@.take(r0.len() as int) =~= r0);
+//@@|         assert(storage.effs@ =~= old(storage).effs@ + seq![Eff::HSet(db as int, key@, fv)] + (match ttl { Some(t) => seq![Eff::Expire(db as int, key@, dur_nanos(t))], None => Seq::<Eff>::empty() }));
+//@@|     }
     fn load_hash_arm(&mut self, storage: &mut StoreLog, db: usize, ttl: Option<Duration>) -> (r: Result<()>)
+        ensures
+            // C09: a HASH record (key, pair count, then field and value strings alternating) is loaded with ONE HSET of exactly those pairs, in file
+            // order, then the record's TTL
+            r is Ok ==> exists|key: Seq<u8>, fv: Seq<(Seq<u8>, Seq<u8>)>| #[trigger] hash_record(key, fv) == final(self).reads@.subrange(old(self).reads@.len() as int, final(self).reads@.len() as int)
+                && final(self).reads@.take(old(self).reads@.len() as int) == old(self).reads@
+                && final(storage).effs@ == old(storage).effs@ + seq![Eff::HSet(db as int, key, fv)]
+                    + (match ttl { Some(t) => seq![Eff::Expire(db as int, key, dur_nanos(t))], None => Seq::<Eff>::empty() }),
 //@@ body
 //@@ end
 }
@@ -232,6 +289,75 @@ impl RdbWriter {
             r is Ok ==> final(self).out@ == old(self).out@ + seq![WItem::Byte(1u8), WItem::Str(key@), WItem::Len(list@.len() as int)] + list@.map_values(|e: Vec<u8>| WItem::Str(e@)),
 //@@ body
 //@@ end
+
+//@@ unit save_set_arm arm src/storage/rdb.rs RdbWriter::write_key_value "Value::Set(set)"
+//@@   opt same-return-type
+//@@   tail Ok(())
+//@@   rewrite RT "RdbOpcode::Set as u8" "2u8"
+//@@   rewrite RFOR 0 it
+//@@   at "for member in set"
+//@@|     let ghost o0 = old(self).out@; let ghost mut ord: Seq<Vec<u8>> = Seq::empty();
+//@@   loop 0
+//@@|     invariant
+//@@|         it.seq().no_duplicates(), it.seq().len() == set@.len(), forall|j: int| 0 <= j < it.seq().len() ==> set@.contains(*(#[trigger] it.seq()[j])), it.history@ =~= it.seq().take(it.index@),
+//@@|         ord.len() == it.index@, forall|j: int| 0 <= j < ord.len() ==> #[trigger] ord[j] == *it.seq()[j],
+//@@|         self.out@ =~= o0 + seq![WItem::Byte(2u8), WItem::Str(key@), WItem::Len(set@.len() as int)] + ord.map_values(|e: Vec<u8>| WItem::Str(e@)),
+//@@|     ensures ord.len() == set@.len(), ord.no_duplicates(), forall|j: int| 0 <= j < ord.len() ==> set@.contains(#[trigger] ord[j]),
+//@@|         self.out@ =~= o0 + seq![WItem::Byte(2u8), WItem::Str(key@), WItem::Len(set@.len() as int)] + ord.map_values(|e: Vec<u8>| WItem::Str(e@)),
+//@@   loopstart 0
+//@@|     let ghost ord_b = ord;
+//@@|     proof { assert(member == it.seq()[it.index@ as int]); ord = ord_b.push(*member);
+//@@|         assert(ord.map_values(|e: Vec<u8>| WItem::Str(e@)) =~= ord_b.map_values(|e: Vec<u8>| WItem::Str(e@)).push(WItem::Str(member@))); }
+//@@   after "for member in set"
+//@@|     proof { assert(set_written(o0, key@, ord) =~= self.out@); }
+    fn save_set_arm(&mut self, key: &[u8], set: &HashSet<Vec<u8>>) -> (r: std::result::Result<(), IoError>)
+        ensures
+            // C09: a set is written as the SET type byte, the key, the member count and every member exactly once (in the container's order)
+            r is Ok ==> exists|ms: Seq<Vec<u8>>| ms.len() == set@.len() && ms.no_duplicates() && (forall|j: int| 0 <= j < ms.len() ==> set@.contains(#[trigger] ms[j]))
+                && #[trigger] set_written(old(self).out@, key@, ms) == final(self).out@,
+//@@ body
+//@@ end
+
+//@@ unit save_hash_arm arm src/storage/rdb.rs RdbWriter::write_key_value "Value::Hash(hash)"
+//@@   opt same-return-type
+//@@   tail Ok(())
+//@@   rewrite RT "RdbOpcode::Hash as u8" "4u8"
+//@@   rewrite RFOR 0 it
+//@@   at "for (field, value) in hash"
+//@@|     let ghost o0 = old(self).out@; let ghost mut ord: Seq<(Vec<u8>, Vec<u8>)> = Seq::empty();
+//@@   loop 0
+//@@|     invariant
+//@@|         it.seq().no_duplicates(), it.seq().len() == hash@.len(), it.history@ =~= it.seq().take(it.index@),
+//@@|         forall|j: int| 0 <= j < it.seq().len() ==> hash@.contains_key(*(#[trigger] it.seq()[j]).0) && hash@[*it.seq()[j].0] == *it.seq()[j].1,
+//@@|         ord.len() == it.index@, forall|j: int| 0 <= j < ord.len() ==> #[trigger] ord[j] == (*it.seq()[j].0, *it.seq()[j].1),
+//@@|         self.out@ =~= o0 + seq![WItem::Byte(4u8), WItem::Str(key@), WItem::Len(hash@.len() as int)] + hash_witems(ord),
+//@@|     ensures ord.len() == hash@.len(), forall|j: int| 0 <= j < ord.len() ==> hash@.contains_key((#[trigger] ord[j]).0) && hash@[ord[j].0] == ord[j].1,
+//@@|         self.out@ =~= o0 + seq![WItem::Byte(4u8), WItem::Str(key@), WItem::Len(hash@.len() as int)] + hash_witems(ord),
+//@@   loopstart 0
+//@@|     let ghost ord_b = ord;
+//@@|     proof { assert((field, value) == it.seq()[it.index@ as int]); ord = ord_b.push((*field, *value)); assert(ord.drop_last() =~= ord_b); }
+//@@   after "for (field, value) in hash"
+//@@|     proof { assert(hash_written(o0, key@, ord) =~= self.out@); }
+    fn save_hash_arm(&mut self, key: &[u8], hash: &HashMap<Vec<u8>, Vec<u8>>) -> (r: std::result::Result<(), IoError>)
+        ensures
+            // C09: a hash is written as the HASH type byte, the key, the pair count and every (field, value) pair of the hash — field then value —
+            // as many pairs as the hash has
+            r is Ok ==> exists|ord: Seq<(Vec<u8>, Vec<u8>)>| ord.len() == hash@.len() && (forall|j: int| 0 <= j < ord.len() ==> hash@.contains_key((#[trigger] ord[j]).0) && hash@[ord[j].0] == ord[j].1)
+                && #[trigger] hash_written(old(self).out@, key@, ord) == final(self).out@,
+//@@ body
+//@@ end
+}
+/// field, value, field, value, ... as written
+pub open spec fn hash_witems(ord: Seq<(Vec<u8>, Vec<u8>)>) -> Seq<WItem>
+    decreases ord.len()
+{
+    if ord.len() == 0 { Seq::empty() } else { hash_witems(ord.drop_last()).push(WItem::Str(ord.last().0@)).push(WItem::Str(ord.last().1@)) }
+}
+pub open spec fn hash_written(o0: Seq<WItem>, key: Seq<u8>, ord: Seq<(Vec<u8>, Vec<u8>)>) -> Seq<WItem> {
+    o0 + seq![WItem::Byte(4u8), WItem::Str(key), WItem::Len(ord.len() as int)] + hash_witems(ord)
+}
+pub open spec fn set_written(o0: Seq<WItem>, key: Seq<u8>, ms: Seq<Vec<u8>>) -> Seq<WItem> {
+    o0 + seq![WItem::Byte(2u8), WItem::Str(key), WItem::Len(ms.len() as int)] + ms.map_values(|e: Vec<u8>| WItem::Str(e@))
 }
 /// round trip at item level: what save_list_arm writes after the type byte is exactly a LIST record body (list_items) for the list's
 /// elements, and load_list_arm turns such a body into one RPUSH per element in the same order — so the loaded list has the saved elements
